@@ -1247,6 +1247,20 @@ def _excluded_sets(call_stmt, loop, ovar):
     return _exclusions(conds, ovar)
 
 
+def _flatten_and(test, polarity):
+    """atoms (test, polarity) implied by `test` evaluating to `polarity`"""
+    out, todo = [], [(test, polarity)]
+    while todo:
+        t, pol = todo.pop()
+        if isinstance(t, ast.BoolOp) and ((isinstance(t.op, ast.And) and pol) or (isinstance(t.op, ast.Or) and not pol)):
+            todo += [(v, pol) for v in t.values]
+        elif isinstance(t, ast.UnaryOp) and isinstance(t.op, ast.Not):
+            todo.append((t.operand, not pol))
+        else:
+            out.append((t, pol))
+    return out
+
+
 def _exclusions(conds, ovar):
     """conds: [(test, polarity)] known to hold; -> ([S with `ovar not in S`], [other (test, polarity)])"""
     ex, other = [], []
@@ -1418,6 +1432,46 @@ def rule_keys(repo):
                               f"but no loop deletes them from {g} (deleted: {_fmt_atoms(deleted)}): after "
                               f"replace_component these objects stay as keys of {g} pointing at deleted signals, "
                               f"unlike a fresh build", st.lineno)
+    # incrementally built sets (S = set(); S |= ... in a loop) must be complete before they are used as a filter / iterated
+    def body_idx(node):
+        cur = node
+        while cur is not None and not any(cur is b for b in fn.body):
+            cur = parent(cur)
+        return None if cur is None else [i for i, b in enumerate(fn.body) if b is cur][0]
+    built = sorted({st.target.id for st in walk_no_nested(fn) if isinstance(st, ast.AugAssign) and isinstance(st.op, ast.BitOr)
+                    and isinstance(st.target, ast.Name)})
+    never = sorted({st.targets[0].id for st in walk_no_nested(fn) if isinstance(st, ast.Assign) and len(st.targets) == 1
+                    and isinstance(st.targets[0], ast.Name) and norm(st.value) == 'set()'
+                    and any(b is st for b in fn.body)} - set(built))
+    for S in never:
+        filt = [n for n in walk_no_nested(fn) if isinstance(n, ast.Compare) and len(n.ops) == 1 and
+                isinstance(n.ops[0], (ast.In, ast.NotIn)) and isinstance(n.comparators[0], ast.Name) and n.comparators[0].id == S]
+        fed = [n for n in walk_no_nested(fn) if isinstance(n, ast.Call) and isinstance(n.func, ast.Attribute)
+               and norm(n.func.value) == S and n.func.attr in ('add', 'update')]
+        if filt and not fed:
+            r.bad(m, DEL_QUAL, f"`{S}` used as a filter but never filled", f"`{S}` stays empty, so `{norm(filt[0])}` filters "
+                  f"nothing: objects that belong to the removed subtree are treated as surviving neighbours", filt[0].lineno)
+    for S in built:
+        fills = [st for k, st, v, op in _bindings(fn, S) if k == 'aug']
+        uses = []
+        for n in walk_no_nested(fn):
+            if isinstance(n, ast.Compare) and len(n.ops) == 1 and isinstance(n.ops[0], (ast.In, ast.NotIn)) and \
+                    isinstance(n.comparators[0], ast.Name) and n.comparators[0].id == S:
+                uses.append(n)
+            elif isinstance(n, (ast.For, ast.comprehension)) and isinstance(n.iter, ast.Name) and n.iter.id == S:
+                uses.append(n.iter)
+        last_fill = max(body_idx(f) for f in fills)
+        early = [u for u in uses if body_idx(u) is not None and body_idx(u) <= last_fill]
+        cons = f"`{S}` is complete before it is used ({len(uses)} uses)"
+        if early:
+            u = sorted(early, key=lambda n: n.lineno)[0]
+            r.bad(m, DEL_QUAL, f"`{S}` used before it is filled",
+                  f"`{norm(stmt_of(u))[:80]}` (line {u.lineno}) consults `{S}` before the loop that fills it "
+                  f"(`{norm(fills[-1])}`, line {fills[-1].lineno}) has run for every removed component: the filter sees an "
+                  f"incomplete set, so e.g. constants living inside the removed subtree are treated as outside neighbours, "
+                  f"saved, and re-connected by the parent", u.lineno)
+        elif uses:
+            r.ok(m, DEL_QUAL, cons)
     # provenance of registry keys: <s>._dsl.<F>.add(K) and <s>._dsl.adjacency[K] in one writer
     prov = set()
     for fm, fc, f in _level_functions(repo):
@@ -1667,6 +1721,46 @@ def rule_saved(repo):
             else:
                 r.bad(m, ADD_QUAL, f"for {', '.join(tv)} in {p}", f"saved connections are not replayed pairwise "
                       f"(neighbour, eval(name)) through {aps[1]}.add_connections", lp.lineno)
+    # replayed connections repeat pairs that the new child's _construct already made (clk / reset hook-up):
+    # _connect_signal_signal must record a pair in connect_order only when it is not yet adjacent
+    cm, cc = _component(repo)
+    hit = repo.lookup_method(cm, cc, '_connect_signal_signal')
+    if hit is None:
+        raise AnalysisError("anchor vanished: _connect_signal_signal")
+    km, kc, kf = hit
+    kme = _params(kf)[0]
+    cfn = repo.lookup_method(cm, cc, '_construct')[2]
+    hooked = [n for n in walk_no_nested(cfn) if isinstance(n, ast.Call) and isinstance(n.func, ast.Attribute)
+              and n.func.attr == '_connect_signal_signal']
+    apps = [n for n in walk_no_nested(kf) if isinstance(n, ast.Call) and isinstance(n.func, ast.Attribute) and n.func.attr == 'append'
+            and _dsl_attr(n.func.value) == (kme, 'connect_order')]
+    if not apps:
+        raise AnalysisError(f"{kc.name}._connect_signal_signal no longer records connect_order")
+    for ap in apps:
+        pair = ap.args[0] if ap.args else None
+        if not (isinstance(pair, ast.Tuple) and len(pair.elts) == 2):
+            raise AnalysisError(f"{kc.name}._connect_signal_signal: connect_order entry outside the domain")
+        a, b = [norm(x) for x in pair.elts]
+        guarded = False
+        for g in guards_of(stmt_of(ap)):
+            if g.kind not in ('if', 'exit'):
+                continue
+            for t, pol in _flatten_and(g.test, g.polarity):
+                if isinstance(t, ast.Compare) and len(t.ops) == 1 and isinstance(t.comparators[0], ast.Subscript) and \
+                        _dsl_attr(t.comparators[0].value) == (kme, 'adjacency'):
+                    notin = (isinstance(t.ops[0], ast.NotIn) and pol) or (isinstance(t.ops[0], ast.In) and not pol)
+                    if notin and {norm(t.left), norm(t.comparators[0].slice)} == {a, b}:
+                        guarded = True
+        cons = f"{kc.name}._connect_signal_signal: connect_order.append(({a}, {b})) only for a not yet adjacent pair"
+        if guarded:
+            r.ok(km, f"{kc.name}._connect_signal_signal", cons,
+                 note=f"_construct hooks {len(hooked)} pair(s) that the saved connections repeat")
+        else:
+            r.bad(km, f"{kc.name}._connect_signal_signal", f"connect_order.append(({a}, {b})) not dominated by `{a} not in adjacency[{b}]`",
+                  f"a pair that is already connected is appended to connect_order again: _construct of the replacement hooks "
+                  f"clk/reset to the parent ({len(hooked)} calls) and _add_component then replays the same saved pairs, so after "
+                  f"replace_component the host's connect_order (hence the translated parent) has duplicated connections that a "
+                  f"fresh build does not have", ap.lineno)
     # aliasing: purge and restore patch parent._dsl.<F>[blk] in place; the top-level all_<F>[blk] follows only because
     # _collect_vars stored the component's OWN set object there (or because both are updated explicitly)
     declared = _declared(repo)
@@ -2250,6 +2344,62 @@ def rule_flush(repo):
                 r.bad(m, qual, "new object construction", f"the replacement must be built as {ps[2]}(*{foo}._dsl.args, "
                       f"**{foo}._dsl.kwargs) so that it gets the replaced component's parameters; found "
                       f"{norm(rv) if rv is not None else None}", ac.lineno)
+    # the argument record replace_component re-instantiates from must be what construct() was really called with
+    cm, cc = _component(repo)
+    hit = repo.lookup_method(cm, cc, '_construct')
+    if hit is None:
+        raise AnalysisError("anchor vanished: _construct")
+    km, kc, kf = hit
+    kq = f"{kc.name}._construct"
+    me = _params(kf)[0]
+    ccalls = [n for n in walk_no_nested(kf) if isinstance(n, ast.Call) and isinstance(n.func, ast.Attribute)
+              and n.func.attr == 'construct' and norm(n.func.value) == me]
+    if len(ccalls) != 1:
+        raise AnalysisError(f"{kq}: expected one {me}.construct(...) call")
+    cc0 = ccalls[0]
+    star = [norm(x.value) for x in cc0.args if isinstance(x, ast.Starred)]
+    kw = [k.value for k in cc0.keywords if k.arg is None]
+    if star != [f"{me}._dsl.args"] or len(cc0.args) != 1:
+        r.bad(km, kq, f"{me}.construct(*{me}._dsl.args, ...)", "construct() is not called with the recorded positional arguments; "
+              "replace_component rebuilds from _dsl.args and would pass different ones", cc0.lineno)
+    else:
+        r.ok(km, kq, f"{me}.construct(*{me}._dsl.args, ...)", nontrivial=False)
+    record = f"{me}._dsl.kwargs"
+    if len(kw) != 1:
+        raise AnalysisError(f"{kq}: construct() call without a single **kwargs")
+    K = kw[0]
+    stored_back = [st for st in walk_no_nested(kf) if isinstance(st, ast.Assign) and any(norm(t) == record for t in st.targets)
+                   and norm(st.value) == norm(K)]
+    if norm(K) == record:
+        r.ok(km, kq, f"construct(**{record})")
+    elif not isinstance(K, ast.Name):
+        raise AnalysisError(f"{kq}: **{norm(K)} outside the domain")
+    else:
+        muts = [n for n in walk_no_nested(kf) if
+                (isinstance(n, ast.Call) and isinstance(n.func, ast.Attribute) and norm(n.func.value) == K.id
+                 and n.func.attr in ('update', 'setdefault', 'pop', '__setitem__')) or
+                (isinstance(n, ast.Subscript) and isinstance(n.ctx, ast.Store) and norm(n.value) == K.id)]
+        binds = [(st, v) for k, st, v, _ in _bindings(kf, K.id) if k == 'assign']
+        if not binds:
+            raise AnalysisError(f"{kq}: no binding of {K.id}")
+        for st, v in binds:
+            t = norm(v)
+            if t not in (record, f"{record}.copy()", f"dict({record})", f"dict(**{record})", f"{{**{record}}}"):
+                raise AnalysisError(f"{kq}: `{norm(st)}` binds the construct arguments to something outside the domain")
+        for mu in muts:
+            rv = reaching_value(K.id, mu)
+            cons = f"{norm(mu)[:60]} merges into the argument record"
+            if rv is None:
+                raise AnalysisError(f"{kq}: cannot tell which dict `{norm(mu)}` mutates")
+            if norm(rv) == record or stored_back:
+                r.ok(km, kq, cons)
+            else:
+                r.bad(km, kq, f"set_param arguments merged into a copy of {record}",
+                      f"`{norm(mu)}` updates `{norm(rv)}`, a copy, and the merged dict is never stored back: {record} no longer "
+                      f"records the parameters the component was built with; replace_component re-instantiates the replacement "
+                      f"from foo._dsl.args / foo._dsl.kwargs and builds it with defaults instead of the set_param'd values", mu.lineno)
+        if not muts:
+            r.ok(km, kq, f"construct(**{K.id}) with {K.id} never modified", nontrivial=False)
     # flush helpers and getters: value<->value, method<->method
     for kind in ('value', 'method'):
         q = f"Component._flush_pending_{kind}_connections"
@@ -2454,7 +2604,41 @@ MUTANTS = [
       c._elaborate_read_write_func()
 """, """    obj._elaborate_read_write_func()
 """, 'R-C15-sites'),
+    dict(name='seed-removed-consts-filled-after-use', rule='R-C15-keys', edits=[
+        dict(file=COMP, old="""        # remove consts
+        removed_consts |= x._dsl.consts
+        # uncollect variables
+        top._uncollect_vars( x )
+""", new="""        top._uncollect_vars( x )
+""", count=1),
+        dict(file=COMP, old="""      for x in removed_components:
+        del x._dsl.parent_obj
+""", new="""      for x in removed_components:
+        removed_consts |= x._dsl.consts
+        del x._dsl.parent_obj
+""", count=1)]),
+    _m('removed-consts-never-filled', COMP, """        # remove consts
+        removed_consts |= x._dsl.consts
+""", "", 'R-C15-keys'),
     # --- saved lists
+    _m('seed-connect-order-duplicates', L3, """    if o1 not in s._dsl.adjacency[o2]:
+      assert o2 not in s._dsl.adjacency[o1]
+      s._dsl.adjacency[o1].add( o2 )
+      s._dsl.adjacency[o2].add( o1 )
+
+      s._dsl.connect_order.append( (o1, o2) )
+""", """    s._dsl.adjacency[o1].add( o2 )
+    s._dsl.adjacency[o2].add( o1 )
+
+    s._dsl.connect_order.append( (o1, o2) )
+""", 'R-C15-saved'),
+    _m('connect-order-appended-outside-the-guard', L3, """      s._dsl.adjacency[o2].add( o1 )
+
+      s._dsl.connect_order.append( (o1, o2) )
+""", """      s._dsl.adjacency[o2].add( o1 )
+
+    s._dsl.connect_order.append( (o1, o2) )
+""", 'R-C15-saved'),
     _m('seed-top-call-table-holds-copies', L2, "        s._dsl.all_upblk_calls[ blk ] = calls\n", "        s._dsl.all_upblk_calls[ blk ] = set( calls )\n",
        'R-C15-saved'),
     _m('top-read-table-holds-copies', L2, "      s._dsl.all_upblk_reads.update( m._dsl.upblk_reads )",
@@ -2509,6 +2693,11 @@ MUTANTS = [
         while i < len(my_indices) - 1:""", """        i = 0
         while i < len(my_indices) - 2:""", 'R-C15-names'),
     # --- flush / protocol
+    _m('seed-construct-merges-into-a-copy', COMP, """      else:
+        kwargs = s._dsl.kwargs
+        if "construct" in s._dsl.param_tree.leaf:""", """      else:
+        kwargs = s._dsl.kwargs.copy()
+        if "construct" in s._dsl.param_tree.leaf:""", 'R-C15-flush'),
     _m('replace-forgets-method-flush', COMP, "    top._flush_pending_method_connections()\n    if check:", "    if check:", 'R-C15-flush', count='first'),
     _m('replace-with-obj-no-check-by-default', COMP, "def replace_component_with_obj( top, foo, new_obj, check=True ):",
        "def replace_component_with_obj( top, foo, new_obj, check=False ):", 'R-C15-flush'),
@@ -2686,6 +2875,30 @@ EQUIV = [
                           lambda x: isinstance( x, MethodPort ) ] )
 """, """    added_signals = obj._collect_all_single( lambda x: isinstance( x, Signal ) )
     added_method_ports = obj._collect_all_single( lambda x: isinstance( x, MethodPort ) )
+"""),
+    _m('construct-merges-into-copy-and-stores-back', COMP, """      else:
+        kwargs = s._dsl.kwargs
+        if "construct" in s._dsl.param_tree.leaf:
+          more_args = s._dsl.param_tree.leaf[ "construct" ]
+          kwargs.update( more_args )
+""", """      else:
+        kwargs = dict( s._dsl.kwargs )
+        if "construct" in s._dsl.param_tree.leaf:
+          more_args = s._dsl.param_tree.leaf[ "construct" ]
+          kwargs.update( more_args )
+        s._dsl.kwargs = kwargs
+"""),
+    _m('connect-guard-as-early-return', L3, """    if o1 not in s._dsl.adjacency[o2]:
+      assert o2 not in s._dsl.adjacency[o1]
+      s._dsl.adjacency[o1].add( o2 )
+      s._dsl.adjacency[o2].add( o1 )
+
+      s._dsl.connect_order.append( (o1, o2) )
+""", """    if o2 in s._dsl.adjacency[o1]:
+      return
+    s._dsl.adjacency[o1].add( o2 )
+    s._dsl.adjacency[o2].add( o1 )
+    s._dsl.connect_order.append( (o1, o2) )
 """),
     _m('add-sets-via-update', COMP, "    top._dsl.all_signals       |= added_signals", "    top._dsl.all_signals.update( added_signals )"),
 ]
